@@ -2,6 +2,7 @@ import Drv.Util
 import Drv.ParMap
 import Drv.Names
 import Drv.Key
+import Drv.Link
 import Drv.Cached
 import Drv.Cache
 import Drv.Conc
@@ -35,6 +36,7 @@ def dispatch (j : Json) : Drv.R Json := do
   | "conc" => Drv.Conc.handle j
   | "cache" => Drv.Cache.handle j
   | "cached" => Drv.Cached.handle j
+  | "link" => Drv.Link.handle j
   | _ => throw "bad_op"
 
 partial def loop (h : IO.FS.Stream) (out : IO.FS.Stream) : IO Unit := do
